@@ -115,6 +115,13 @@ Theorem C20_Stat_text : forall data depth maxItem o,
 Proof. exact StatText_report. Qed.
 Print Assumptions C20_Stat_text.
 
+(** the variadic options: only the first one counts; a first option that is not an Opt panics *)
+Theorem C20_Stat_opts : forall data depth maxItem opts,
+  match data with Some v => lsupported v | None => True end ->
+  StatOpts data depth maxItem opts = spec_opts data depth maxItem opts.
+Proof. exact StatOpts_report. Qed.
+Print Assumptions C20_Stat_opts.
+
 (** the first line is "<type>: <n>" with n the number [Of] returns for the same value *)
 Theorem C20_Stat_first_line_text : forall v depth maxItem n,
   lsupported v -> Of (Some (erase v)) = Some n ->
